@@ -84,3 +84,33 @@ Print Assumptions C09_all_run_in_order_after_steps.
 Print Assumptions C09_unstartable_rejects.
 Print Assumptions C09_nonzero_rejects.
 Print Assumptions C09_inspection_implies_step_checks_passed.
+
+(* ---- with the model of InTotoRun / RecordArtifacts (model/Record.v, property C13) as the inspection stage ----
+   on acceptance every inspection of the enforced layout produced a link whose materials are the record of the
+   verification directory (".", or the explicit run directory) as it was BEFORE its command and whose products
+   are the record of the directory the command left behind - recorded with sha256, no exclude patterns, no
+   strip prefixes, directory symlinks not followed - and whose return value is zero; C13_record_spec says
+   that such a record holds exactly the regular files present with the digests of their bytes. *)
+From IT Require Import model.Record proofs.PipelineRecord.
+
+Theorem C09_rules_on_real_dir :
+  forall ignored H perm cmd_sem dump_link dir norm
+         vsig expiry_ok subst certs_ok load_all verify_thresholds verify_rules retval_zero pbytes zero_key
+         fuel w path d layout_env keys step_name params inter s w' tr,
+    verify node vsig expiry_ok subst certs_ok load_all verify_thresholds verify_rules
+           (run_insp_record ignored H perm cmd_sem dump_link dir norm) retval_zero pbytes zero_key
+           (S fuel) w path d layout_env keys step_name params inter = (Ok s, w', tr) ->
+    exists layout reduced_links imeta,
+      Forall (fun i => exists wi l,
+                record_artifacts ignored H perm wi sha256_only [] norm false [dir] [] = Ok (ln_materials l) /\
+                record_artifacts ignored H perm (after_cmd cmd_sem wi (i_run i)) sha256_only [] norm false [dir] [] = Ok (ln_products l) /\
+                retval_zero l = true /\ ln_name l = i_name i) (l_inspect layout) /\
+      verify_rules (map insp_item (l_inspect layout)) (merge_steps reduced_links imeta) = Ok tt.
+Proof.
+  intros ignored H perm cmd_sem dump_link dir norm vsig expiry_ok subst certs_ok load_all verify_thresholds verify_rules
+         retval_zero pbytes zero_key fuel w path d layout_env keys step_name params inter s w' tr Hv.
+  apply C09_all_run_in_order_after_steps in Hv as [layout [rl [imeta [w2 [tr2 [_ [Hrun [_ [_ Hr2]]]]]]]]].
+  exists layout, rl, imeta. split; [|exact Hr2].
+  eapply insp_run_record_snapshots. exact Hrun.
+Qed.
+Print Assumptions C09_rules_on_real_dir.
